@@ -6,7 +6,7 @@ from ..core import (U, walk_local, calls_in, call_name, const, NOCONST, params, 
 from ..cfg import CFG
 from ..effects import nondet_source
 from .common import PG, PGF
-from . import c04, c08, c09
+from . import c01, c04, c08, c09
 
 HSF = 'lib_guesser/honeyword_session.py'
 HS = HSF + '::HoneywordSession.'
@@ -198,8 +198,14 @@ def r4_limit(ctx, rule):
     return c09.r2_pairing(ctx, rule, quals=[HS + 'run', HG], floor=5)
 
 
+def _renorm(ctx, rule):
+    from . import c14
+    return c14.r2_renormalisation(ctx, rule)
+
+
 def rules(tier):
-    return [('C16.R1', r1_walk_weights), ('C16.R2', r2_uniform_choice), ('C16.R3', r3_seeding), ('C16.R4', r4_limit)]
+    return [('C16.R1', r1_walk_weights), ('C16.R2', r2_uniform_choice), ('C16.R3', r3_seeding), ('C16.R4', r4_limit),
+            ('C16.R5', c01.r8_uniform_scale), ('C16.R6', _renorm)]
 
 
 META = {
